@@ -40,6 +40,8 @@ pub struct Out {
     pub extreme_queries: u64,
     pub max_own_score: f64,
     pub tags: BTreeMap<String, u64>,
+    /// bit patterns of the fitted parameters and default-threshold probabilities / predictions (builder-history comparison)
+    pub fingerprint: Vec<u64>,
 }
 
 impl Out {
@@ -50,6 +52,9 @@ impl Out {
 
 pub fn std_layout() -> String {
     "standard".to_string()
+}
+pub fn default_ctor() -> String {
+    "default".to_string()
 }
 pub fn f64_name() -> String {
     "f64".to_string()
@@ -301,7 +306,10 @@ fn main() {
          Hardening families (same runners and oracles): (a) LAYOUTS - records of fit and of predict / predict_probabilities as column-major owned array, transposed view of a feature-major array, reversed-row view of a reversed copy, \
          every-second-row view of a larger array with NaN filler rows, each compared with the standard-layout run of the same case (subset: every 5th / every labeling of the 6-point lattices x scale {1,100} x alpha x intercept for the binary model, \
          every 13th / 3rd partition for the multinomial model, every 27th / 5th target vector for 5 (power, link) pairs of the Tweedie model); (b) SIZES - the 6-point lattices / 5- and 6-point designs cycled to n in {1025, 4097} rows for 2 / 4 labelings, 3 partitions, 1..2 targets per (power, link), \
-         x scale x alpha x intercept, in standard and one non-standard layout (all n training rows are also prediction queries); (c) F32 - every labeling of two 6-point lattices (binary), every 5th / every partition (multinomial), every 27th / 5th target (Tweedie) at scale 1 with f32 records, parameters and predictions.",
+         x scale x alpha x intercept, in standard and one non-standard layout (all n training rows are also prediction queries); (d) BUILDER HISTORY - every order of the setters (logistic: alpha, with_intercept, max_iterations, gradient_tolerance, initial_params = 120 orders; Tweedie: alpha, fit_intercept, power, link, max_iter, tol = 720 orders) \
+         x {plain, every field first written with a decoy value} x constructors {default, new (, params)} on 2 binary, 2 multinomial and 6 Tweedie problems: the parameter object must equal (PartialEq and Debug) that of the canonical history / the checked Tweedie getters must publish the final logical set, \
+         and the fit must be bit-identical to the canonical history's (Tweedie: for every 24th / 3rd order); additionally EVERY fitted binary / multinomial model is called through predict_inplace on a buffer pre-filled with wrong classes, with C::default(), and reused from a previous batch, and through MultiTargetModel; Tweedie predict_inplace on a NaN-filled buffer. \
+         (c) F32 - every labeling of two 6-point lattices (binary), every 5th / every partition (multinomial), every 27th / 5th target (Tweedie) at scale 1 with f32 records, parameters and predictions.",
     );
     ctx.assume("documented objectives (rustdoc of logistic_loss / multi_logistic_loss / TweedieProblem::cost): binary -sum_i log sigm(y_i z_i) + alpha/2 w.w; multinomial -sum(Y*log softmax(XW+b)) + alpha/2 ||W||_F^2; Tweedie 1/2 (sum_i unit_deviance(y_i, mu_i) + alpha w.w) with the textbook unit deviance the comments in distribution.rs quote; sums not means; the intercept is never penalised");
     ctx.assume("stationarity oracle: own f64 gradient norm at the returned parameters <= 10 x gradient_tolerance (1e-4; logistic models: max_iterations 1000 = 10 x default, and a fit that fails the test is refitted with max_iterations 5000 and judged on that refit; Tweedie: max_iter 300 = 3 x default for 1..3 parameters) OR objective within 1e-8 * max(1,|J*|) of the own damped-Newton minimum (logistic: from zero, convex; Tweedie: Newton descent started at the returned point); a violation needs BOTH to fail");
@@ -380,7 +388,7 @@ fn main() {
                                 retry_max_iter: RETRY_MAX_ITER,
                                 order: oname.to_string(),
                                 scale,
-                                n_rows: None, fit_layout: std_layout(), query_layout: std_layout(), float: f64_name(),
+                                n_rows: None, fit_layout: std_layout(), query_layout: std_layout(), float: f64_name(), setter_order: None, decoys: false, ctor: default_ctor(),
                             });
                             let mut v = Vec::new();
                             let o = run_case(&case, &mut v);
@@ -468,7 +476,7 @@ fn main() {
                             retry_max_iter: RETRY_MAX_ITER,
                             order: oname.to_string(),
                             scale,
-                            n_rows: None, fit_layout: std_layout(), query_layout: std_layout(), float: f64_name(),
+                            n_rows: None, fit_layout: std_layout(), query_layout: std_layout(), float: f64_name(), setter_order: None, decoys: false, ctor: default_ctor(),
                         });
                         let mut v = Vec::new();
                         let o = run_case(&case, &mut v);
@@ -523,7 +531,7 @@ fn main() {
                 for (fam, pts, y) in targets {
                     for &alpha in &tw_alphas {
                         for intercept in [true, false] {
-                            tcases.push(Case::Tweedie(TwCase { family: fam.to_string(), x: pts.clone(), y: y.clone(), power: p, link: link.to_string(), alpha, intercept, tol: GTOL, max_iter: TW_MAX_ITER, n_rows: None, fit_layout: std_layout(), query_layout: std_layout(), float: f64_name() }));
+                            tcases.push(Case::Tweedie(TwCase { family: fam.to_string(), x: pts.clone(), y: y.clone(), power: p, link: link.to_string(), alpha, intercept, tol: GTOL, max_iter: TW_MAX_ITER, n_rows: None, fit_layout: std_layout(), query_layout: std_layout(), float: f64_name(), setter_order: None, decoys: false, ctor: default_ctor(), builder_fit: false }));
                         }
                     }
                 }
@@ -543,7 +551,7 @@ fn main() {
                                 let mut y: Vec<f64> = (0..pts.len()).map(|i| if link == "logit" { 0.25 + 0.125 * i as f64 } else { 0.5 + i as f64 }).collect();
                                 y[pos] = bad;
                                 n_range += 1;
-                                tcases.push(Case::Tweedie(TwCase { family: fam.to_string(), x: pts.clone(), y, power: p, link: link.to_string(), alpha: 0.1, intercept, tol: GTOL, max_iter: TW_MAX_ITER, n_rows: None, fit_layout: std_layout(), query_layout: std_layout(), float: f64_name() }));
+                                tcases.push(Case::Tweedie(TwCase { family: fam.to_string(), x: pts.clone(), y, power: p, link: link.to_string(), alpha: 0.1, intercept, tol: GTOL, max_iter: TW_MAX_ITER, n_rows: None, fit_layout: std_layout(), query_layout: std_layout(), float: f64_name(), setter_order: None, decoys: false, ctor: default_ctor(), builder_fit: false }));
                             }
                         }
                     }
@@ -600,6 +608,9 @@ fn main() {
         fit_layout: std_layout(),
         query_layout: std_layout(),
         float: f64_name(),
+        setter_order: None,
+        decoys: false,
+        ctor: default_ctor(),
     };
     let mk_multi = |fam: &str, pts: &Vec<Vec<f64>>, part: &Vec<u8>, k: usize, scale: f64, alpha: f64, intercept: bool| MultiCase {
         family: fam.to_string(),
@@ -620,6 +631,9 @@ fn main() {
         fit_layout: std_layout(),
         query_layout: std_layout(),
         float: f64_name(),
+        setter_order: None,
+        decoys: false,
+        ctor: default_ctor(),
     };
     let tw_pairs: [(f64, &str); 5] = [(0.0, "identity"), (1.0, "log"), (1.5, "log"), (2.0, "log"), (3.0, "logit")];
     let design_h1: Vec<Vec<f64>> = (0..5).map(|i| vec![i as f64 * 0.5]).collect();
@@ -637,6 +651,10 @@ fn main() {
         fit_layout: std_layout(),
         query_layout: std_layout(),
         float: f64_name(),
+        setter_order: None,
+        decoys: false,
+        ctor: default_ctor(),
+        builder_fit: false,
     };
     let all_parts6: Vec<(usize, Vec<u8>)> = (2..=4usize).flat_map(|k| partitions(6, k).into_iter().map(move |p| (k, p))).collect();
     let tw_targets = |p: f64, link: &str, stride: usize| -> Vec<(&'static str, Vec<Vec<f64>>, Vec<f64>)> {
@@ -819,6 +837,84 @@ fn main() {
             }
         }
     }
+    // ---- (d) builder history: every order of the setters, decoy-then-real writes, every constructor ----
+    let mut n_builder = 0u64;
+    if want("harden") {
+        let perms5 = lvmc_core::enumerate::permutations(5);
+        let perms6 = lvmc_core::enumerate::permutations(6);
+        let bin_data: Vec<(&str, u32, f64, bool)> = vec![("1d", 0b010110, 0.01, true), ("2d", 0b101001, 1.0, false)];
+        for (fam, mask, alpha, intercept) in &bin_data {
+            let pts = &lat6.iter().find(|(f, _)| f == fam).unwrap().1;
+            for (pi, perm) in perms5.iter().enumerate() {
+                for decoys in [false, true] {
+                    for ctor in ["default", "new"] {
+                        if ctx.quick() && decoys && pi % 4 != 0 {
+                            continue;
+                        }
+                        let mut c = mk_bin(fam, pts, *mask, 1.0, *alpha, *intercept);
+                        let d = pts[0].len();
+                        let mut init: Vec<f64> = (0..d).map(|j| if j % 2 == 0 { 0.1 } else { -0.05 }).collect();
+                        if *intercept {
+                            init.push(-0.2);
+                        }
+                        c.init = Some(init);
+                        c.setter_order = Some(perm.iter().map(|&v| v as u8).collect());
+                        c.decoys = decoys;
+                        c.ctor = ctor.to_string();
+                        hcases.push(Case::Binary(c));
+                        n_builder += 1;
+                    }
+                }
+            }
+        }
+        let multi_data: Vec<(&str, usize, Vec<u8>, f64, bool)> = vec![("1d", 3, vec![0, 1, 2, 0, 1, 2], 0.01, true), ("2d", 4, vec![0, 0, 1, 1, 2, 3], 1.0, false)];
+        for (fam, k, part, alpha, intercept) in &multi_data {
+            let pts = &lat6.iter().find(|(f, _)| f == fam).unwrap().1;
+            for (pi, perm) in perms5.iter().enumerate() {
+                for decoys in [false, true] {
+                    for ctor in ["default", "new"] {
+                        if ctx.quick() && (decoys || ctor == "new") && pi % 4 != 0 {
+                            continue;
+                        }
+                        let mut c = mk_multi(fam, pts, part, *k, 1.0, *alpha, *intercept);
+                        let pz = pts[0].len() + *intercept as usize;
+                        c.init = Some((0..pz).map(|i| (0..*k).map(|cc| (((i + 2 * cc) % 3) as f64 - 1.0) * 0.1).collect()).collect());
+                        c.setter_order = Some(perm.iter().map(|&v| v as u8).collect());
+                        c.decoys = decoys;
+                        c.ctor = ctor.to_string();
+                        hcases.push(Case::Multi(c));
+                        n_builder += 1;
+                    }
+                }
+            }
+        }
+        // (power, link) pairs where the configured link differs from the automatic one, plus two where it does not
+        let tw_b: Vec<(f64, &str, Vec<f64>, f64)> = vec![
+            (0.0, "log", vec![2.0, 0.5, 2.0, 2.0, 0.5], 0.1),
+            (0.0, "logit", vec![0.2, 0.5, 0.9, 0.5, 0.2], 0.0),
+            (1.0, "identity", vec![1.0, 1.0, 3.0, 3.0, 3.0], 1.0),
+            (1.5, "logit", vec![0.2, 0.9, 0.5, 0.9, 0.2], 0.1),
+            (2.0, "log", vec![0.5, 1.0, 3.0, 1.0, 0.5], 1.0),
+            (0.0, "identity", vec![-1.0, 0.5, 2.0, 0.5, -1.0], 0.1),
+        ];
+        for (p, link, y, alpha) in &tw_b {
+            for (pi, perm) in perms6.iter().enumerate() {
+                for decoys in [false, true] {
+                    for ctor in ["default", "new", "params"] {
+                        let mut c = mk_tw("1d", &design_h1, y.clone(), *p, link, *alpha, pi % 2 == 0);
+                        c.setter_order = Some(perm.iter().map(|&v| v as u8).collect());
+                        c.decoys = decoys;
+                        c.ctor = ctor.to_string();
+                        // the fit is compared for a subset of the histories (two child processes each), the published
+                        // parameters for every history
+                        c.builder_fit = pi % ctx.pick(24usize, 3usize) == 1 && (ctor == "default" || pi % 5 == 1);
+                        hcases.push(Case::Tweedie(c));
+                        n_builder += 1;
+                    }
+                }
+            }
+        }
+    }
     // deterministic interleaving, as for the Tweedie sweep (large and small cases mixed over the threads)
     {
         let n = hcases.len();
@@ -849,6 +945,7 @@ fn main() {
     ctx.extra("hardening_layout_cases_enumerated", json!(n_layout));
     ctx.extra("hardening_large_n_cases_enumerated", json!(n_large));
     ctx.extra("hardening_f32_cases_enumerated", json!(n_f32));
+    ctx.extra("hardening_builder_history_cases_enumerated", json!(n_builder));
     ctx.extra("hardening_cases_run", json!(hard_done));
     ctx.extra("f32_case_child_largest_cpu_ms_of_a_returning_child", json!(MAX_CASE_CHILD_MS.load(std::sync::atomic::Ordering::Relaxed)));
     let t = tally.lock().unwrap();
